@@ -262,18 +262,38 @@ func (s *server) ModifyColumnFamilies(ctx context.Context, req *btapb.ModifyColu
 	defer tbl.mu.Unlock()
 	cfs := tbl.def.ColumnFamilies
 
+	// Validate the whole request first, against the set of families as it will
+	// be after the preceding modifications, so that a request that fails
+	// changes nothing.
+	exists := make(map[string]bool, len(cfs))
+	for id := range cfs {
+		exists[id] = true
+	}
 	for _, mod := range req.Modifications {
-		if create := mod.GetCreate(); create != nil {
-			if _, ok := cfs[mod.Id]; ok {
+		if mod.GetCreate() != nil {
+			if exists[mod.Id] {
 				return nil, status.Errorf(codes.AlreadyExists, "family %q already exists", mod.Id)
 			}
+			exists[mod.Id] = true
+		} else if mod.GetDrop() {
+			if !exists[mod.Id] {
+				return nil, fmt.Errorf("can't delete unknown family %q", mod.Id)
+			}
+			delete(exists, mod.Id)
+		} else if mod.GetUpdate() != nil {
+			if !exists[mod.Id] {
+				return nil, fmt.Errorf("no such family %q", mod.Id)
+			}
+		}
+	}
+
+	// Apply; nothing below can fail.
+	for _, mod := range req.Modifications {
+		if create := mod.GetCreate(); create != nil {
 			cfs[mod.Id] = &btapb.ColumnFamily{
 				GcRule: create.GcRule,
 			}
 		} else if mod.GetDrop() {
-			if _, ok := cfs[mod.Id]; !ok {
-				return nil, fmt.Errorf("can't delete unknown family %q", mod.Id)
-			}
 			delete(cfs, mod.Id)
 
 			// Purge all data for this column family
@@ -285,13 +305,11 @@ func (s *server) ModifyColumnFamilies(ctx context.Context, req *btapb.ModifyColu
 				return true
 			})
 		} else if modify := mod.GetUpdate(); modify != nil {
-			cf, ok := cfs[mod.Id]
-			if !ok {
-				return nil, fmt.Errorf("no such family %q", mod.Id)
-			}
 			// assume that we ALWAYS want to replace by the new setting
 			// we may need partial update through
-			cf.GcRule = modify.GcRule
+			if cf, ok := cfs[mod.Id]; ok {
+				cf.GcRule = modify.GcRule
+			}
 		}
 	}
 
